@@ -2,6 +2,7 @@ package main
 
 import (
 	"encoding/hex"
+	"fmt"
 	"context"
 	"errors"
 	"net/http"
@@ -33,7 +34,13 @@ func init() { families["repo"] = runRepo }
 type stubAuthn struct{ id string }
 
 func (s *stubAuthn) ID() string { return s.id }
-func (s *stubAuthn) Execute(heimdall.Context) (*subject.Subject, error) {
+func (s *stubAuthn) Execute(ctx heimdall.Context) (*subject.Subject, error) {
+	// which version of the rule is executing (the id of its authenticator stands for everything a version of a
+	// rule consists of besides its matching conditions)
+	if len(s.id) > 1 && s.id[0] == 'v' {
+		ctx.AddHeaderForUpstream("X-Verif-Ver", s.id[1:])
+	}
+
 	return &subject.Subject{ID: "anon"}, nil
 }
 func (s *stubAuthn) WithConfig(map[string]any) (authenticators.Authenticator, error) { return s, nil }
@@ -101,6 +108,10 @@ func toRuleSet(op map[string]any) *rconfig.RuleSet {
 			ID:                     getStr(rm, "id"),
 			EncodedSlashesHandling: rconfig.EncodedSlashesHandling(getStr(rm, "esh")),
 			Execute:                []config.MechanismConfig{{"authenticator": "a"}},
+		}
+
+		if ver := getInt(rm, "ver"); ver > 0 {
+			rc.Execute = []config.MechanismConfig{{"authenticator": fmt.Sprintf("v%d", ver)}}
 		}
 
 		if bt, ok := rm["bt"].(bool); ok {
@@ -250,6 +261,10 @@ func runRepo(c map[string]any) (any, error) {
 
 			if err == nil {
 				res["caps"] = sortedPairs(ctx.Request().URL.Captures)
+				if ver := ctx.UpstreamHeaders().Get("X-Verif-Ver"); ver != "" {
+					res["ver"] = ver
+				}
+
 				if be != nil {
 					res["upstream"] = be.URL().String()
 				}
